@@ -510,10 +510,13 @@ class TaskScenario(ScenarioData):
                                 dep_time_idx = self.project.dateToIdx(dep_time)
                                 # Skip gap_slots of working time
                                 working_slots = 0
-                                while working_slots < gap_slots:
+                                last_idx = self.project.scoreboardSize() - 1
+                                while working_slots < gap_slots and dep_time_idx <= last_idx:
                                     if self.isWorkingTime(dep_time_idx):
                                         working_slots += 1
                                     dep_time_idx += 1
+                                # A gap that does not fit into the horizon puts the bound behind
+                                # its end; the range check below then gives up on this task.
                                 dep_time = self.project.idxToDate(dep_time_idx)
                             if dep_time > earliest_start:
                                 earliest_start = dep_time
